@@ -1,5 +1,5 @@
 //@file src/half_connection/packet_receiver/assembly_window/mod.rs
-//@props C03 C06
+//@props C03 C06 C04 C02 C09
 // T9 cover for the trusted contract of AssemblyWindow::new (contracts/assembly_window.vspec).
 // Append this module to src/half_connection/packet_receiver/assembly_window/mod.rs of a scratch copy and run
 //   cargo test --offline --lib t9_assembly_window_new
